@@ -33,6 +33,13 @@ fn gen_case(mode: &str, seed: u64, idx: u64, tier: &str) -> Case {
             gen::gen_model(&mut r, &p)
         }
         "c17" if idx % 8 == 5 => gen::gen_cumul_profiles(&mut r),
+        "c01" if idx % 10 == 1 => {
+            // single large-magnitude constraints of C16's regime below 2^30 (sums and products of a few
+            // constants leave the 32-bit range): every result path has to hand out true solutions there too
+            // (products wrap most easily: half of these cases are multiplications)
+            let kinds = ["times", "lin_le", "times", "lin_eq", "times", "lin_ne", "times", "plus", "times", "div", "times", "abs", "times", "max", "times", "min", "times", "element", "times", "bin_ne"];
+            gen::gen_big(&mut r, kinds[((idx / 10) % kinds.len() as u64) as usize], false)
+        }
         "c01" | "c04" | "c17" | "c20" if idx % 5 == 2 => gen::gen_model(&mut r, &Profile::clause_heavy()),
         "c02" if idx % 20 == 7 => gen::gen_deep_chain(&mut r),
         "c02" => {
